@@ -144,6 +144,8 @@ def worker(bdir, variant, start, plans, tag):
     res = core.Result()
     b = build.Build(variant, bdir)
     for plan in plans:
+        if len(res.violations) >= 3:
+            break                      # enough witnesses; every further spinning run costs thousands of selects
         label = "C16-%s-%s" % (start, "_".join("%s%s" % (r, "".join(map(str, a))) for r, a in sorted(plan.items())))
         for attempt in (0, 1):
             try:
